@@ -280,7 +280,10 @@ StringDictionary *StringDictionaryHASHRPDAC::load(std::istream &in,
     return NULL;
 
   StringDictionaryHASHRPDAC *dict = new StringDictionaryHASHRPDAC();
-  dict->type = technique;
+  // The dictionary keeps its own type: save() writes it as the image tag
+  // and uses it to select the DAC encoding of the sequence
+  (void)technique;
+  dict->type = HASHRPDAC;
   dict->elements = loadValue<uint64_t>(in);
   dict->maxlength = loadValue<uint32_t>(in);
 
